@@ -179,6 +179,36 @@ def main(argv=None):
                 herr.append("shard %d: %s" % (sh, o.get("error")))
                 continue
             outs.append(o)
+        # coverage-guided supplement (thorough tier only, properties that define fuzz_strategy)
+        fz = getattr(prop, "FUZZ", None)
+        fuzz_info = None
+        if args.tier == "thorough" and fz and hasattr(prop, "fuzz_strategy") and not herr and not args.only:
+            fprocs = []
+            for sh in range(nsh):
+                out = os.path.join(work, "fuzz%d.json" % sh)
+                env = dict(os.environ)
+                env["PYTHONHASHSEED"] = hashseed(args.seed, sh, args.tier)
+                env["PYTHONDONTWRITEBYTECODE"] = "1"
+                env["PYTHONPATH"] = VERIF_DIR + os.pathsep + os.path.join(VERIF_DIR, ".deps") + os.pathsep + env.get("PYTHONPATH", "")
+                cmd = [sys.executable, "-m", "g3dverif.fuzz", args.id, "--runs", os.environ.get("G3DVERIF_FUZZ_RUNS", str(fz["runs"])), "--seed", str(args.seed * 1000 + sh),
+                       "--shard", str(sh), "--out", out, "--max-seconds", str(fz.get("max_seconds", 0)), "--corpus", os.path.join(work, "corpus%d" % sh)]
+                errf = open(os.path.join(work, "fuzz%d.err" % sh), "w")
+                fprocs.append((sh, out, subprocess.Popen(cmd, cwd=VERIF_DIR, env=env, stdout=errf, stderr=errf), errf))
+            fuzz_info = {"engine": "atheris/libFuzzer over the same Hypothesis strategies (fuzz_one_input), Geometry3D instrumented", "shards": nsh, "inputs": 0, "evaluations": 0, "status": "ok"}
+            for sh, out, p, errf in fprocs:
+                p.wait()
+                errf.close()
+                if not os.path.exists(out):
+                    herr.append("fuzz shard %d produced no output: %s" % (sh, open(os.path.join(work, "fuzz%d.err" % sh)).read()[-1500:]))
+                    continue
+                with open(out) as f:
+                    o = json.load(f)
+                if o.get("status") == "unavailable":
+                    fuzz_info["status"] = "atheris unavailable, supplement skipped: " + o.get("error", "")
+                    continue
+                fuzz_info["inputs"] += o.get("fuzz_inputs", 0)
+                fuzz_info["evaluations"] += o.get("evaluations", 0)
+                outs.append(o)
     finally:
         shutil.rmtree(work, ignore_errors=True)
     if herr:
@@ -239,6 +269,7 @@ def main(argv=None):
             "repo": REPO,
             "repo_head": head,
             "repo_dirty": dirty,
+            "coverage_guided_supplement": fuzz_info,
         },
         "assumptions": list(getattr(prop, "ASSUMPTIONS", [])),
         "wall_s": round(wall, 2),
